@@ -15,7 +15,7 @@ use vpmodel::spec::{hexser, mono, ChainSpec};
 pub const DEF: PropDef = PropDef {
     id: "C14",
     level: "exploration",
-    rule: "a valid generated base chain (8 coins) in which 1..3 fields - scriptPubKey, scriptSig or a witness item - are replaced by bytes from the hostile classes (truncated pushes of every width, PUSHDATA4 with huge lengths, every leading opcode, invalid UTF-8 after OP_RETURN, witness-program lookalikes with illegal lengths, hundreds to thousands of pushes, multisig-like scripts with >255 pushes, raw bytes up to 10 KB quick / 100 KB thorough); all five callbacks are run. Oracle: exit 0 for every callback, and every row/figure not derived from the replaced field equals the reference model (scriptSig and witness are opaque: exact equality; for a replaced scriptPubKey the address column of that row, its unspent row, a zero balance row and its type count are masked). Non-trivial = the hostile bytes are not a recognised template; distinct by hostile bytes.",
+    rule: "a valid generated base chain (8 coins) in which 1..3 fields - scriptPubKey, scriptSig or a witness item - are replaced by bytes from the hostile classes (truncated pushes of every width, PUSHDATA4 with huge lengths, every leading opcode, invalid UTF-8 after OP_RETURN, witness-program lookalikes with illegal lengths, hundreds to thousands of pushes, multisig-like scripts with >255 pushes, raw bytes up to 10 KB quick / 100 KB thorough); all five callbacks are run at verbosity 0, -v or -vv (debug/trace logging formats the evaluated patterns). Oracle: exit 0 for every callback, and every row/figure not derived from the replaced field equals the reference model (scriptSig and witness are opaque: exact equality; for a replaced scriptPubKey the address column of that row, its unspent row, a zero balance row and its type count are masked). Non-trivial = the hostile bytes are not a recognised template; distinct by hostile bytes.",
     assumptions: &["replaced outputs get value 0 so that balances of other addresses are unaffected", "txids are recomputed by the model (they legitimately change with non-witness bytes)"],
     run,
     replay,
@@ -42,6 +42,9 @@ pub struct Hostile {
 pub struct Case {
     pub chain: ChainSpec,
     pub hostile: Vec<Hostile>,
+    /// number of -v flags (0 = info, 1 = debug, 2 = trace)
+    #[serde(default)]
+    pub verbose: u8,
 }
 
 pub fn hostile_bytes(tier: Tier) -> BS<Vec<u8>> {
@@ -65,7 +68,7 @@ pub fn strategy(tier: Tier) -> BS<Case> {
     cfg.tx.max_common = 3;
     cfg.time = gen::monotonic_time();
     let h = (prop_oneof![5 => Just(Place::ScriptPubKey), 2 => Just(Place::ScriptSig), 2 => Just(Place::Witness)], hostile_bytes(tier), any::<u16>(), any::<u16>(), any::<u16>()).prop_map(|(place, bytes, block, tx, slot)| Hostile { place, bytes, block, tx, slot });
-    (gen::chain(&cfg), proptest::collection::vec(h, 1..=3)).prop_map(|(chain, hostile)| Case { chain, hostile }).boxed()
+    (gen::chain(&cfg), proptest::collection::vec(h, 1..=3), prop_oneof![3 => Just(0u8), 2 => Just(1u8), 1 => Just(2u8)]).prop_map(|(chain, hostile, verbose)| Case { chain, hostile, verbose }).boxed()
 }
 
 /// applies the replacements; returns the modified spec and the hostile scriptPubKeys
@@ -138,6 +141,7 @@ pub fn check(c: &Case) -> Verdict {
         for cb in ALL_CALLBACKS {
             let mut o = RunOpts::new(coin, cb);
             o.bin = Some(bin.clone());
+            o.verbose = c.verbose;
             let out = infra!(w.run(&o));
             runs += 1;
             if let Some(v) = timed_out_is_infra(&out) {
@@ -163,7 +167,7 @@ pub fn check(c: &Case) -> Verdict {
             }
         }
     }
-    let mut classes = vec![format!("coin={}", coin.cli())];
+    let mut classes = vec![format!("coin={}", coin.cli()), format!("verbosity={}", c.verbose)];
     let mut nontrivial = false;
     for h in &c.hostile {
         classes.push(format!("place={:?}", h.place));
